@@ -187,6 +187,14 @@ func TestC06Pinned(t *testing.T) {
 		b := o.blockSize()
 		cases = append(cases, c06Case{Opts: o, Data: gen.Data{Segs: []gen.Seg{{K: "rand", N: 2 * b, S: 9}, {K: "text", N: b, S: 10, P: 4}, {K: "rand", N: b + 100, S: 11}}}})
 	}
+	// a current-format frame whose second block's size word equals the number of bytes decoded before it (the shape that ends
+	// a *legacy* stream early, see the known finding of C02): Write(A), Flush, Write(B), len(A) = compressed size of B
+	if a := sizeWordCoincidence(); a > 0 {
+		for _, o := range []wopts{{BS: 4, Conc: 1}, {BS: 4, Conc: 1, BlockSum: true}, {BS: 4, Conc: 1, ContentSum: true}} {
+			cases = append(cases, c06Case{Opts: o, Data: gen.Data{Segs: []gen.Seg{{K: "rand", N: a, S: 71}, {K: "run", N: 1000, P: 'a'}, {K: "rand", N: 300, S: 72}}},
+				Del: delivery{Mode: "write", Chunks: []int{a, 1000}, Flush: []bool{true, true}}})
+		}
+	}
 	if thorough() {
 		cases = append(cases, c06Case{Opts: wopts{BS: 4, Conc: 1, Legacy: true}, Data: gen.Data{Segs: []gen.Seg{{K: "rand", N: 24<<20 + 5, S: 8}}}})
 	}
@@ -194,7 +202,6 @@ func TestC06Pinned(t *testing.T) {
 		if i%nshards != shard {
 			continue
 		}
-		c.Del = delivery{}
 		fz, f := buildC06Frame(c)
 		if f != nil {
 			judge(t, "C06", "C06/cut", c, f)
